@@ -60,14 +60,22 @@ Example ex_number_hyp :
             jnum_is_int n = false /\ cue_dec_of n = {| dneg := true; dcoeff := 1250; dexp := 0 |}.
 Proof. eexists. split; [vm_compute; reflexivity|]. repeat split; vm_compute; reflexivity. Qed.
 
-Example ex_number_cue : cue_read_number (b "-12.50E+2") = Some (false, CFin {| dneg := true; dcoeff := 1250; dexp := 0 |}).
+Example ex_number_cue : cue_read_number (b "-12.50E+2") = Some (false, {| dneg := true; dcoeff := 1250; dexp := 0 |}).
 Proof. vm_compute. reflexivity. Qed.
 
-Example ex_number_big : cue_read_number (b "1e400") = Some (false, CFin {| dneg := false; dcoeff := 1; dexp := 400 |}).
+Example ex_number_big : cue_read_number (b "1e400") = Some (false, {| dneg := false; dcoeff := 1; dexp := 400 |}).
 Proof. vm_compute. reflexivity. Qed.
 
-Example ex_number_negzero : cue_read_number (b "-0") = Some (true, CFin {| dneg := false; dcoeff := 0; dexp := 0 |}).
+Example ex_number_negzero : cue_read_number (b "-0") = Some (true, {| dneg := false; dcoeff := 0; dexp := 0 |}).
 Proof. vm_compute. reflexivity. Qed.
+
+(* outside apd's exponent range the literal is an error; the limit itself is accepted *)
+Example ex_number_range :
+  cue_read_number (b "1e100001") = None /\ cue_read_number (b "12e100000") = None /\
+  cue_read_number (b "1e-2147483649") = None /\
+  cue_read_number (b "1e100000") = Some (false, {| dneg := false; dcoeff := 1; dexp := 100000 |}) /\
+  cue_read_number (b "1.5e-100000") = Some (false, {| dneg := false; dcoeff := 15; dexp := (-100001) |}).
+Proof. repeat split; vm_compute; reflexivity. Qed.
 
 (* CUE's grammar is larger: these are not JSON *)
 Example ex_number_cue_only :
